@@ -3,6 +3,7 @@ package colsim
 import (
 	"bytes"
 	"fmt"
+	"io"
 	"os"
 	"runtime"
 	"sort"
@@ -518,7 +519,14 @@ func runRace(cs *Case) (w *World) {
 		before = fi.Size()
 	}
 	commit.SimSetID(1000)
-	c := w.newCollection(nil)
+	var stream commit.Logger
+	if NewRng(cs.Seed, uint64(cs.Run), 103).Chance(0.5) {
+		// half of the runs have a change stream: a real commit.Log over a sink that is only
+		// touched under the log's own lock, so that commits are encoded by the committing threads
+		// (beside a snapshot's recorder, which encodes the same commits into its own log)
+		stream = commit.Open(&raceSink{})
+	}
+	c := w.newCollection(stream)
 	w.primary = c
 	defer w.close()
 	w.prefill(c, cs.Cfg.Prefill)
@@ -675,6 +683,12 @@ func colOf(cols []ColSpec, name string) (ColSpec, bool) {
 	}
 	return ColSpec{}, false
 }
+
+// raceSink is the destination of the race world's change stream: it counts bytes.
+type raceSink struct{ n int }
+
+func (s *raceSink) Write(p []byte) (int, error) { s.n += len(p); return len(p), nil }
+func (s *raceSink) Read(p []byte) (int, error)  { return 0, io.EOF }
 
 // raceIssue writes one value (no model, no shared harness state).
 func raceIssue(txn *column.Txn, r column.Row, col ColSpec, wr Write, hasRow bool) {
